@@ -10,6 +10,7 @@ def default_set(infos):
 def parse_keys(s):
     names, tags = set(), set()
     for k in s.split(","):
+        k = k.strip()   # "a, b" is the list {a, b} in every front-end
         if k.startswith("#"):
             tags.add(k[1:])
         else:
